@@ -434,6 +434,8 @@ class C08(Prop):
     def canonical(self, line):
         if line.startswith("fault"):
             return "fault"
+        if line.startswith("ok type=") and (" sym=48542d582a7e " in line or " sym=3132333435362d582a7e " in line):
+            return "ok type=toy" + line[line.index(" K="):]     # the type tag of the coins/dice toy alphabets is immaterial
         return line
 
     def nontrivial(self, case, out):
@@ -443,7 +445,7 @@ class C08(Prop):
         return False
 
     # ------------------------------------------------------------------------------------------------------------
-    def monitor(self, ctx, case, out):
+    def _monitor(self, ctx, case, out):
         """direct statements of the property on the implementation's output lines (independent of the Lean model)"""
         a = None          # alphabet tables as last printed by the implementation
         stale = False     # construction op since the last dump
@@ -578,8 +580,22 @@ class C08(Prop):
                         return Failure("monitor", "%s x=%d: count %d changed by %r, equal split is %r" % (name, x, y, after[y] - before[y], share))
         return None
 
+    def monitor(self, ctx, case, out):
+        st = self.__dict__.setdefault("_dist", {"ops": {}, "results": {}, "arg_bytes": {}})
+        for op, l in zip(case["ops"], out):
+            name = op.split(" ", 1)[0]
+            st["ops"][name] = st["ops"].get(name, 0) + 1
+            res = l.split(" ", 1)[0][:24] if l else "<none>"
+            if res.startswith("st="): res = res
+            key = name + ":" + res
+            st["results"][key] = st["results"].get(key, 0) + 1
+            n = len(op)
+            b = "<64" if n < 64 else "<1k" if n < 1024 else "<8k" if n < 8192 else ">=8k"
+            st["arg_bytes"][b] = st["arg_bytes"].get(b, 0) + 1
+        return self._monitor(ctx, case, out)
+
     def extra_evidence(self, ctx):
-        return {"table_rows_dumped": {t["name"]: t["Kp"] for t in getattr(self, "_tabs", [])}}
+        return {"input_distribution": getattr(self, "_dist", {}), "table_rows_dumped": {t["name"]: t["Kp"] for t in getattr(self, "_tabs", [])}}
 
 
 SPEC = C08()
